@@ -335,7 +335,6 @@ pub fn run_all(ctx: &mut Ctx, z3: &mut Z3, tier: &str, seed: u64, repo: &Path, s
     let l = ctx.l;
     let mut programs = 0usize;
     let mut idx = 0usize;
-    let mut accepted: Vec<(String, GOpts, Glob)> = vec![];
     for g in &corpus {
         if !only.is_empty() && !g.contains(only) {
             continue;
@@ -385,7 +384,6 @@ pub fn run_all(ctx: &mut Ctx, z3: &mut Z3, tier: &str, seed: u64, repo: &Path, s
                 push(ctx, "encoder-validation", &program, "inconclusive", "encoder NFA disagrees with GlobMatcher".into(), Some(h), false);
                 continue;
             }
-            accepted.push((g.clone(), o, glob.clone()));
             let nonvac = ctx.samples.iter().any(|h| nfa.is_match(h, 0, h.len())) || {
                 let mut enc = Enc::new(l);
                 let s = enc.sim(&nfa, "0", "n", None);
@@ -458,12 +456,64 @@ pub fn run_all(ctx: &mut Ctx, z3: &mut Z3, tier: &str, seed: u64, repo: &Path, s
 
     // ---- G-SET: sets of 2..3 accepted globs; one solver-chosen path per
     // satisfiable combination of member verdicts, executed on the real set
+    // (the member pool is the WHOLE corpus under its first two option sets,
+    // identical in every shard; the sets are then dealt out to the shards)
+    let mut accepted: Vec<(String, GOpts, Glob)> = vec![];
+    if ctx.want("G-SET") {
+        for g in &corpus {
+            if !only.is_empty() && !g.contains(only) {
+                continue;
+            }
+            for o in options_for(g, tier, seed).into_iter().take(2) {
+                if let Ok(glob) = build(g, &o) {
+                    if regex_hir(glob.regex()).ok().and_then(|h| Nfa::from_hir(&h).ok()).is_some() {
+                        accepted.push((g.clone(), o, glob));
+                    }
+                }
+            }
+        }
+    }
     if ctx.want("G-SET") && accepted.len() >= 2 {
-        let mut rng = Rng(seed ^ 0x5e7 ^ (si as u64) << 8);
+        let mut rng = Rng(seed ^ 0x5e7);
         let nsets = if tier == "thorough" { 400 } else { 60 };
+        // candidate member lists: random ones, plus RELATED ones (same strategy
+        // kind, one literal a prefix/suffix of the other or equal): the index
+        // merging code of a strategy is only exercised when several of its
+        // globs fire on the same path
+        let mut member_lists: Vec<Vec<usize>> = vec![];
         for _ in 0..nsets {
             let k = 2 + rng.below(2);
-            let members: Vec<&(String, GOpts, Glob)> = (0..k).map(|_| &accepted[rng.below(accepted.len())]).collect();
+            member_lists.push((0..k).map(|_| rng.below(accepted.len())).collect());
+        }
+        let strat: Vec<(&'static str, String)> = accepted.iter().map(|m| { let (k, l, _) = m.2.verif_strategy(); (k, l) }).collect();
+        let mut related = 0;
+        'outer: for i in 0..accepted.len() {
+            for j in 0..accepted.len() {
+                if i == j || strat[i].0 != strat[j].0 || strat[i].0 == "Regex" {
+                    continue;
+                }
+                let (a, b) = (&strat[i].1, &strat[j].1);
+                if a.len() <= b.len() && (b.starts_with(a.as_str()) || b.ends_with(a.as_str())) {
+                    // third member: another of the same kind if available
+                    let third = (0..accepted.len()).find(|&t| t != i && t != j && strat[t].0 == strat[i].0 && (strat[t].1.starts_with(a.as_str()) || strat[t].1.ends_with(a.as_str())));
+                    let mut v = vec![i, j];
+                    if let Some(t) = third {
+                        v.push(t);
+                    }
+                    member_lists.push(v);
+                    related += 1;
+                    if related >= 3 * nsets {
+                        break 'outer;
+                    }
+                }
+            }
+        }
+        for (mi, ml) in member_lists.into_iter().enumerate() {
+            if mi % sn != si {
+                continue;
+            }
+            let k = ml.len();
+            let members: Vec<&(String, GOpts, Glob)> = ml.iter().map(|&i| &accepted[i]).collect();
             let program = format!("set{:?}", members.iter().map(|m| format!("{}{}", m.0, m.1.describe())).collect::<Vec<_>>());
             let mut b = GlobSetBuilder::new();
             for m in &members {
